@@ -583,3 +583,30 @@ Example no_members_example :
   members (amap_run 100 [OAddW (mkNode 1 0) 92233720368547759; OAddW (mkNode 2 1) 0; OAddR (mkNode 3 2) (-4)]) = [] /\
   members (amap_run 100 [OAddW (mkNode 1 0) 92233720368547759; OAddW (mkNode 2 1) 1]) = [(2, (1, 1))].
 Proof. vm_compute. auto. Qed.
+
+(* ======== round 4, follow-up: lookups among lookups (seeded C15-11) ====================================
+   Reads do not write.  Whatever ran before and runs afterwards, a block of lookups — any number, any order —
+   leaves the ring as it is, and each lookup answers [get] of that quiescent state for its own key. *)
+Theorem concurrent_gets_answer_as_alone : forall vh R pre ks post,
+  let s := fst (grun vh R init pre) in
+  grun vh R init (pre ++ lookups ks ++ post) =
+  (fst (grun vh R s post),
+   snd (grun vh R init pre) ++ map (fun k => get s (fst k) (snd k)) ks ++ snd (grun vh R s post)).
+Proof. exact gets_answer_as_alone_l. Qed.
+Print Assumptions concurrent_gets_answer_as_alone.
+
+(* ... also below the granularity of one atomic read: a lookup copies the bytes of its key and then hashes
+   what the buffer holds.  With PRIVATE bytes (HEAD: a fresh []byte(repr(v)) per call) every interleaving of
+   the copy / hash steps of any number of lookups gives each lookup the quiescent answer for its own key.
+   With one buffer shared under the read lock this fails: Pinned.shared_buffer_gets_refuted. *)
+Theorem lookups_with_private_bytes_answer_as_alone : forall s keys steps t g,
+  In (t, g) (lrun false s keys (fun _ => None) steps) ->
+  g = get s (fst (key_of keys t)) (snd (key_of keys t)).
+Proof. exact private_bytes_answer_as_alone_l. Qed.
+Print Assumptions lookups_with_private_bytes_answer_as_alone.
+
+Example gets_alone_example :
+  snd (grun cf_hash 100 init (map CAct [AInsert (mkNode 1 0) 100; AInsert (mkNode 2 1) 100] ++
+                              lookups [(150, 0); (250, 0); (150, 0)] ++ [CAct (ARemove 1); CGet 150 0])) =
+  [GSome (mkNode 1 0); GSome (mkNode 2 1); GSome (mkNode 1 0); GSome (mkNode 2 1)].
+Proof. vm_compute. reflexivity. Qed.
